@@ -20,9 +20,12 @@ HARNESSES = {
  "k3_secp256k1_tr_scalar": ("same for frost-secp256k1-tr", "Secp256K1ScalarField::deserialize/serialize (tr)", "all 2^256 strings"),
  "k3_p256_scalar": ("same for frost-p256", "P256ScalarField::deserialize/serialize, p256::Scalar::from_repr/to_bytes", "all 2^256 strings"),
  "k3_ed448_scalar": ("Ed448 scalar encoding: accepted => re-encodes to itself (57 bytes)", "Ed448ScalarField::deserialize/serialize, ed448-goldilocks from_canonical_bytes/to_bytes_rfc_8032", "all 2^456 strings"),
- "k4_p256_tag": ("frost-p256 element decoding rejects every leading byte other than 0x02/0x03/0x05 (in front of the generator's x); 0x05 (SEC1 compact) enters point decompression and is outside Kani's reach", "P256Group::deserialize, p256 Sec1Point::from_bytes / AffinePoint::from_sec1_point", "254 tag bytes, concrete x"),
+ "k4_p256_tag": ("frost-p256 element decoding rejects every leading byte other than 0x02/0x03 (in front of the generator's x), the SEC1 compact tag 0x05 included", "P256Group::deserialize, p256 Sec1Point::from_bytes / AffinePoint::from_sec1_point", "254 tag bytes, concrete x; probe 0x05 replayed natively first"),
  "k4_secp256k1_tag": ("same for frost-secp256k1", "Secp256K1Group::deserialize", "254 tag bytes, concrete x"),
  "k4_secp256k1_tr_tag": ("same for frost-secp256k1-tr", "Secp256K1Group::deserialize (tr)", "254 tag bytes, concrete x"),
+ "k4_ed25519_identity_y1": ("frost-ed25519 element decoding rejects every 32-byte string whose y-coordinate is 1 modulo p (the identity: y in {1, p+1}, either sign bit) — point decompression replaced by a contract model under Kani, real decompression in the native replay", "Ed25519Group::deserialize (real wrapper, point equality, error mapping); stubs: CompressedEdwardsY::decompress, EdwardsPoint::is_torsion_free", "all 2^256 strings, case y = 1 (mod p)"),
+ "k4_ed25519_identity_nopoint": ("same wrapper, strings the contract model maps to 'not a point': always an error, never the identity", "Ed25519Group::deserialize", "all 2^256 strings, case y != 1, decompress = None"),
+ "k4_ed25519_identity_point": ("same wrapper, strings the contract model maps to a prime-order point: an accepted element is never the identity", "Ed25519Group::deserialize", "all 2^256 strings, case y != 1, decompress = Some(B)"),
  "k4_tr_signature_length": ("Taproot signature decoding rejects every length 0..=80 except 64, never panics", "Secp256K1Sha256TR::deserialize_signature", "lengths 0..=80 of a zero buffer"),
  "k5_keypackage_decode": ("postcard decoding of KeyPackage from an arbitrary string: no panic, accepted => version byte 0", "frost_core::keys::KeyPackage::deserialize, serialization::Deserialize, Header/version/ciphersuite-id checks, postcard", "all strings of length <= 12 (toy encodings)"),
  "k5_keypackage_roundtrip": ("KeyPackage encode/decode round-trips for every min_signers and payload", "KeyPackage::serialize/deserialize", "all u16 min_signers, all toy payloads"),
@@ -39,12 +42,21 @@ HARNESSES = {
  "k7_dkg_round2": ("dkg round2 SecretPackage and Package: zeroize()/drop wipe the share", "dkg::round2::{SecretPackage,Package} Zeroize/ZeroizeOnDrop", "all secret values"),
 }
 
+# designated inputs replayed natively BEFORE the solver run of a harness: a decoder that lets the
+# input through to curve arithmetic would drown CBMC (measured: 34 GB), so a probe that already
+# fails on the real build is reported at once and the harness is not sent to the solver
+PROBES = {
+ "k4_p256_tag": ["05"],
+ "k4_secp256k1_tag": ["05"],
+ "k4_secp256k1_tr_tag": ["05"],
+}
+
 PLAN = {
  # property -> (quick harnesses, extra thorough harnesses)
  "C02": (["k2_id_secp256k1", "k2_id_secp256k1_tr", "k2_id_p256", "k2_id_toy16", "k2_cmp_secp256k1", "k2_cmp_p256", "k2_cmp_toy16"], []),
  "C06": (["k6_validate_num_of_signers"], []),
  "C12": (["k3_secp256k1_scalar", "k3_secp256k1_tr_scalar", "k3_p256_scalar", "k3_ed448_scalar", "k2_zero_secp256k1", "k2_zero_p256", "k4_tr_signature_length", "k4_p256_tag", "k4_secp256k1_tag", "k4_secp256k1_tr_tag",
-          "k5_keypackage_decode", "k5_signature_decode", "k5_primitives_decode", "k5_keypackage_roundtrip"], ["k5_dkg_round2_secret_roundtrip"]),
+          "k5_keypackage_decode", "k5_signature_decode", "k5_primitives_decode", "k5_keypackage_roundtrip", "k4_ed25519_identity_y1"], ["k5_dkg_round2_secret_roundtrip", "k4_ed25519_identity_nopoint", "k4_ed25519_identity_point"]),
  "C13": ([], ["k5_keypackage_roundtrip", "k5_dkg_round2_secret_roundtrip"]),
  "C14": (["k5_keypackage_decode", "k5_signature_decode", "k5_primitives_decode", "k4_tr_signature_length", "k6_validate_num_of_signers"], []),
  "C20": (["k7_keypackage", "k7_signing_share_and_key", "k7_secret_share", "k7_signing_nonces", "k7_dkg_round1_secret", "k7_dkg_round2"], []),
@@ -118,7 +130,7 @@ def run(prop, tier, seed, out_path, only=None):
     env = dict(os.environ, CARGO_NET_OFFLINE="true", RUSTFLAGS="--cfg miri")
     cap = 3000 if tier == "thorough" else 1500
     def kani(harnesses, jobs, playback, tag):
-        cmd = ["timeout", str(cap), "cargo", "kani", "--exact", "--target-dir", os.path.join(BUILD, "kani"), "--output-format", "terse"]
+        cmd = ["timeout", str(cap), "cargo", "kani", "-Z", "stubbing", "--exact", "--target-dir", os.path.join(BUILD, "kani"), "--output-format", "terse"]
         if playback:
             cmd += ["-Z", "concrete-playback", "--concrete-playback=print"]
         elif jobs > 1:
@@ -129,10 +141,20 @@ def run(prop, tier, seed, out_path, only=None):
         open(os.path.join(BUILD, f"kani-{prop}{tag}.log"), "w").write(p.stdout)
         return p.stdout
 
-    out = kani(hs, min(8, len(hs)), False, "")
+    probe_fail = {}
+    replays = 0
+    for h in hs:
+        for pv in PROBES.get(h, []):
+            rc, msg = replay(binpath, h, pv)
+            replays += 1
+            if rc == 1:
+                probe_fail[h] = (pv, msg)
+                break
+    run_hs = [h for h in hs if h not in probe_fail]
+    out = kani(run_hs, min(8, len(run_hs)), False, "") if run_hs else ""
     res = split_output(out)
     # counterexample values: second, single-threaded pass over the failing harnesses only
-    failing = [h for h in hs if h in res and "VERIFICATION:- FAILED" in res[h] and "unwinding assertion" not in res[h] and "out of memory" not in res[h] and "CBMC failed" not in res[h]]
+    failing = [h for h in run_hs if h in res and "VERIFICATION:- FAILED" in res[h] and "unwinding assertion" not in res[h] and "out of memory" not in res[h] and "CBMC failed" not in res[h]]
     playback = {}
     if failing:
         out2 = kani(failing, 1, True, "-playback")
@@ -149,11 +171,25 @@ def run(prop, tier, seed, out_path, only=None):
     total_checks = 0
     covers = 0
     solver_s = 0.0
-    replays = 0
     ok_count = 0
     for h in hs:
         sec = res.get(h)
         desc = HARNESSES.get(h, ("", "", ""))
+        if h in probe_fail:
+            hexvals, msg = probe_fail[h]
+            label = f"{h}: {msg}"
+            if any(st == "open" and mt in label for st, mt in known):
+                lines.append(f"KNOWN-FINDING: property={prop} {label}")
+                continue
+            viol += 1
+            os.makedirs(os.path.join(VERIF, "replays"), exist_ok=True)
+            rp = os.path.join(VERIF, "replays", f"{prop}-{h}.json")
+            json.dump({"property": prop, "engine": "E2", "harness": h, "input_hex": hexvals, "decides": desc[0], "native_replay": msg,
+                       "replay_cmd": f"./check {prop} --replay {rp}"}, open(rp, "w"), indent=1)
+            lines.append(f"VIOLATION property={prop} replay={rp}")
+            lines.append(f"  probe input {hexvals} of harness {h} fails on the real build: {msg}")
+            samples.append({"harness": h, "decides": desc[0], "verdict": "FAILED (probe)", "input_hex": hexvals, "native_replay": msg})
+            continue
         if sec is None:
             inconc += 1
             lines.append(f"INCONCLUSIVE property={prop}: harness {h} produced no verdict (build failure or time-out)")
